@@ -218,9 +218,12 @@ Lemma step_wsp_auth fx w s k m :
   toks (fst (step_wsp fx w s k m)) = toks s /\ grants (fst (step_wsp fx w s k m)) = grants s.
 Proof. unfold step_wsp. break_step; simpl; auto. Qed.
 
-Lemma step_http_auth fx s kind p t q h :
-  fst (step_http fx s kind p t q h) = s.
+Lemma step_http_auth fx w s kind p t q h :
+  fst (step_http fx w s kind p t q h) = s.
 Proof. unfold step_http, step_http_in. break_step; simpl; auto. Qed.
+
+Lemma step_url_auth lw fx w s u t h : fst (step_url_gen lw fx w s u t h) = s.
+Proof. unfold step_url_gen. break_step; simpl; auto. Qed.
 
 Lemma step_api_auth s ep t u b n h :
   toks (fst (step_api s ep t u b n h)) = toks s /\ grants (fst (step_api s ep t u b n h)) = grants s.
@@ -242,6 +245,7 @@ Proof.
   - destruct (step_wsp_auth fx w s k m). eapply tok_inv_ext; eauto.
   - rewrite step_http_auth. exact H.
   - destruct (step_api_auth s ep t u upd_pw name hdrs). eapply tok_inv_ext; eauto.
+  - unfold step_url. rewrite step_url_auth. exact H.
 Qed.
 
 Inductive reachable (w : list bytes) : state -> Prop :=
@@ -564,7 +568,7 @@ Proof.
 Qed.
 
 Lemma judge_http w s kind path t q h :
-  tok_inv s -> judge_chk w s (EHttp kind path t q h) (snd (step_http true s kind path t q h)) = true.
+  tok_inv s -> judge_chk w s (EHttp kind path t q h) (snd (step_http true w s kind path t q h)) = true.
 Proof.
   intros H. unfold judge_chk, step_http, step_http_in, allowed_chk, url_path.
   cbn [is_request identity target granted accepted keepalive feasible unauth_code judge_join_chk].
@@ -677,6 +681,7 @@ Proof.
     intros _. rewrite E2. destruct E4 as [E4|E4]; congruence.
   - rewrite step_http_auth. exact H.
   - unfold step_api. break_step; simpl; exact H.
+  - unfold step_url. rewrite step_url_auth. exact H.
 Qed.
 
 Lemma conns_ok_init u e : conns_ok (state0 u e).
@@ -720,6 +725,37 @@ Proof.
   rewrite (Hc Ek), <- Ep. unfold spec_allows in Ea. rewrite Ea. rewrite orb_true_r. reflexivity.
 Qed.
 
+(* a raw /streams/ URL: the interceptor's and the handler's derivations *)
+Lemma url_derivations_agree u kind p n :
+  url_handler false true u = HServe kind p n -> url_icp true u = p.
+Proof.
+  unfold url_handler, url_icp. destruct (extract true u) as [sp ext].
+  destruct (bytes_eqb ext EXT_FLV) eqn:E1.
+  { apply bytes_eqb_eq in E1. subst ext. intros H. inversion H. reflexivity. }
+  destruct (bytes_eqb ext EXT_M3U8) eqn:E2.
+  { apply bytes_eqb_eq in E2. subst ext. intros H. inversion H. reflexivity. }
+  destruct (bytes_eqb ext EXT_TS) eqn:E3; [|discriminate].
+  unfold strip_last. destruct (split_last sp) as [[q r]|]; [|discriminate].
+  destruct (atoi_go r); [|discriminate]. intros H. inversion H. reflexivity.
+Qed.
+
+Lemma judge_url w s u t h :
+  tok_inv s -> judge_chk w s (EUrl u t h) (snd (step_url true w s u t h)) = true.
+Proof.
+  intros H. unfold judge_chk, step_url, step_url_gen, allowed_chk.
+  cbn [is_request identity target granted accepted keepalive feasible unauth_code judge_join_chk].
+  destruct (mux_ok u); cbn [negb andb].
+  2:{ cbn. rewrite !andb_false_r. destruct (token_identity s t); reflexivity. }
+  rewrite stream_gate_spec by exact H.
+  destruct (token_identity s t) as [v|]; [|reflexivity].
+  destruct (spec_allows (users s) v APull (url_icp true u)) eqn:Ea; cbn [negb Z.eqb]; [|reflexivity].
+  cbn [Pos.eqb negb]. destruct (url_handler false true u) as [kind p n| |]; try reflexivity.
+  destruct (live (reg s) p) as [o|]; [|reflexivity].
+  destruct (kind =? 1) eqn:E1; destruct (kind =? 2) eqn:E2; destruct (kind =? 0) eqn:E0; destruct (o =? 1);
+    destruct (url_seg_listed n); try reflexivity;
+    try (apply Z.eqb_eq in E1); try (apply Z.eqb_eq in E2); try (apply Z.eqb_eq in E0); subst; discriminate.
+Qed.
+
 (* ------------------------------------------------------------------ *)
 (* G. every event of every reachable state is judged right              *)
 
@@ -734,6 +770,7 @@ Proof.
   - split; [apply judge_wsp|reflexivity].
   - split; [apply judge_http; assumption|reflexivity].
   - split; [apply judge_api; assumption|reflexivity].
+  - split; [apply judge_url; assumption|reflexivity].
 Qed.
 
 Lemma run_ok_from w s evs : tok_inv s -> conns_ok s -> ok_run_chk w s evs (run w s evs) = true.
@@ -873,6 +910,7 @@ Proof.
   - unfold step_wsp. break_step; reflexivity.
   - rewrite step_http_auth. reflexivity.
   - unfold step_api. break_step; reflexivity.
+  - unfold step_url. rewrite step_url_auth. reflexivity.
 Qed.
 
 (* management calls succeed only for administrators (stream queries: for any authenticated caller) *)
@@ -1144,6 +1182,10 @@ Proof.
         destruct (u_admin x); [|simp; auto].
         simp. destruct (ep =? EP_SAVE_USER); [simp; auto using save_same|].
         destruct (ep =? EP_DEL_USER); simp; auto using del_same.
+  - unfold step_url, step_url_gen. destruct (negb (mux_ok url)); [simp; auto|].
+    unfold stream_gate, stream_gate_h, auth_gate, access_check. cbn [users toks now reg set_users].
+    destruct (if is_none t then None else _) as [uname|]; [|simp; auto].
+    rewrite <- Hp. destruct (perm_go _ _ _ _); cbn [negb Z.eqb Pos.eqb]; break_step; simp; auto.
 Qed.
 
 (* ------------------------------------------------------------------ *)
@@ -1247,6 +1289,7 @@ Proof.
   - unfold step_wsopen, step_wsopen_in. rewrite stream_gate_hdrs. reflexivity.
   - unfold step_http, step_http_in. rewrite stream_gate_hdrs. reflexivity.
   - unfold step_api. rewrite api_gate_hdrs. reflexivity.
+  - unfold step_url, step_url_gen. rewrite stream_gate_hdrs. reflexivity.
 Qed.
 
 Theorem run_ignores_client_headers w s evs : run w s evs = run w s (map strip_hdrs evs).
@@ -1406,6 +1449,24 @@ Proof.
     cbn [snd o_aux ob]. destruct ((m =? M_PLAY) && negb (c_data c2)); [reflexivity|].
     apply or3_b. pose proof (wsp_handle_src w _ _ _ _ _ _ Eh) as Hs.
     destruct Hs as [Hs|[Hs|Hs]]; auto.
+  - unfold step_http, step_http_in, url_path.
+    destruct (negb (mux_ok (http_url kind path seq))); [reflexivity|].
+    destruct (stream_gate true s t (canonical_path path) _ hdrs) as [code un].
+    destruct (negb (code =? 200)); [reflexivity|].
+    destruct (live (reg s) (canonical_path path)) as [o|]; [|reflexivity].
+    destruct ((kind =? 1) && negb (o =? 1)); [reflexivity|].
+    destruct ((kind =? 2) && _); [reflexivity|].
+    cbn [snd o_aux ob]. rewrite Z.eqb_refl. apply orb_true_r.
+  - unfold step_url, step_url_gen.
+    destruct (negb (mux_ok url)); [reflexivity|].
+    destruct (stream_gate true s t (url_icp true url) None hdrs) as [code un].
+    destruct (negb (code =? 200)); [reflexivity|].
+    destruct (url_handler false true url) as [kind p n| |] eqn:Eh; try reflexivity.
+    apply url_derivations_agree in Eh.
+    destruct (live (reg s) p) as [o|]; [|reflexivity].
+    destruct ((kind =? 1) && negb (o =? 1)); [reflexivity|].
+    destruct ((kind =? 2) && _); [reflexivity|].
+    cbn [snd o_aux ob]. rewrite Eh, Z.eqb_refl. apply orb_true_r.
 Qed.
 
 Theorem step_judged_served w s ev :
@@ -1615,6 +1676,7 @@ Proof.
     + rewrite E2. exact Hw.
   - rewrite step_http_auth. exact H.
   - unfold step_api. break_step; simpl; exact H.
+  - unfold step_url. rewrite step_url_auth. exact H.
 Qed.
 
 Lemma reachable_conns_settled w s : reachable w s -> conns_settled s.
@@ -1628,9 +1690,9 @@ Proof.
 Qed.
 
 (* the guard is no guard: in every reachable state every event is inside the class the oracle is strict on *)
-Theorem ev_ok_reachable w s ev : reachable w s -> ev_ok s ev = true.
+Theorem ev_ok_reachable w s ev : reachable w s -> url_ok ev = true -> ev_ok s ev = true.
 Proof.
-  intros Hr. apply reachable_conns_settled in Hr. unfold ev_ok.
+  intros Hr Hu. apply reachable_conns_settled in Hr. unfold ev_ok.
   destruct ev; cbn [target snd]; try (rewrite path_ok_nil; reflexivity).
   - rewrite (rtsp_target_settled false _ m path (get_conn_settled s k Hr)). reflexivity.
   - rewrite path_ok_canon. cbn [andb]. destruct (kind =? 2); [|reflexivity].
@@ -1638,17 +1700,24 @@ Proof.
   - rewrite (rtsp_target_settled true _ m path (get_conn_settled s k Hr)). reflexivity.
   - destruct (get_conn_settled s k Hr) as [Hp Hw]. destruct (m =? M_DESCRIBE); [rewrite Hw|rewrite Hp]; reflexivity.
   - rewrite path_ok_canon. reflexivity.
+  - cbn [url_ok] in Hu. rewrite Hu. reflexivity.
+Qed.
+
+(* a URL whose extension is not exactly ".ts" is checked on the canonical stream path itself *)
+Lemma url_ok_not_ts u t h : bytes_eqb (path_ext u) EXT_TS = false -> url_ok (EUrl u t h) = true.
+Proof.
+  intros H. cbn [url_ok]. unfold url_icp, extract, url_path. rewrite H. apply path_ok_canon.
 Qed.
 
 (* hence the served-resource theorems hold without the guard *)
 Theorem served_requires_permit_always w s ev :
   reachable w s ->
   let o := snd (step w s ev) in
-  is_request ev = true -> fst (target s ev) = APull ->
+  is_request ev = true -> fst (target s ev) = APull -> url_ok ev = true ->
   granted ev o = true -> keepalive s ev = false ->
   exists u r, identity s ev = Some u /\ rights_now (users s) u = Some r /\
               permits r PULL (served_key (snd (target s ev))) = true.
-Proof. intros Hr o Hq Ht Hg Hk. eapply served_requires_permit; eauto using ev_ok_reachable. Qed.
+Proof. intros Hr o Hq Ht Hu Hg Hk. eapply served_requires_permit; eauto using ev_ok_reachable. Qed.
 
 Theorem published_requires_permit_always w s ev :
   reachable w s ->
@@ -1657,27 +1726,82 @@ Theorem published_requires_permit_always w s ev :
   zlist_eqb (o_reg o) (reg_view w (reg s)) = false ->
   exists u r, identity s ev = Some u /\ rights_now (users s) u = Some r /\
               fst (target s ev) = APush /\ permits r PUSH (served_key (snd (target s ev))) = true.
-Proof. intros Hr o He Hd. eapply published_requires_permit; eauto using ev_ok_reachable. Qed.
+Proof.
+  intros Hr o He Hd. eapply published_requires_permit; eauto.
+  apply (ev_ok_reachable w); [exact Hr|]. destruct ev; try contradiction; reflexivity.
+Qed.
 
 Theorem holder_of_served_not_refused_always w s ev :
-  reachable w s -> is_request ev = true ->
+  reachable w s -> is_request ev = true -> url_ok ev = true ->
   allowed s ev = true -> feasible w s ev = true ->
   accepted ev (snd (step w s ev)) = true.
-Proof. intros Hr Hq Ha Hf. eapply holder_of_served_not_refused; eauto using ev_ok_reachable. Qed.
+Proof. intros Hr Hq Hu Ha Hf. eapply holder_of_served_not_refused; eauto using ev_ok_reachable. Qed.
 
 (* the strict oracle (no exclusion) accepts the model on every history *)
-Lemma run_ok_strict_from w s evs : reachable w s -> ok_run_strict w s evs (run w s evs) = true.
+Lemma run_ok_strict_from w s evs :
+  reachable w s -> forallb url_ok evs = true -> ok_run_strict w s evs (run w s evs) = true.
 Proof.
-  revert s. induction evs as [|e evs IH]; intros s Hr; [reflexivity|].
+  revert s. induction evs as [|e evs IH]; intros s Hr Hu; [reflexivity|].
+  cbn [forallb] in Hu. apply andb_true_iff in Hu as [Hu1 Hu2].
   unfold run in *. cbn [run_gen ok_run_strict].
   pose proof (reachable_tok_inv _ _ Hr) as H. pose proof (reachable_conns_ok _ _ Hr) as Hok.
   destruct (step_judged_served w s e H Hok) as [J1 J2].
-  unfold judge, judge_reg in J1, J2. rewrite (ev_ok_reachable w s e Hr) in J1, J2.
+  unfold judge, judge_reg in J1, J2. rewrite (ev_ok_reachable w s e Hr Hu1) in J1, J2.
   pose proof (reach_step w s e Hr) as Hr1. unfold step in *.
   destruct (step_gen true w s e) as [s1 o] eqn:Es. cbn [ok_run_strict fst snd] in *.
-  rewrite J1, J2. cbn [andb]. apply IH. exact Hr1.
+  rewrite J1, J2. cbn [andb]. apply IH; assumption.
 Qed.
 
 Theorem model_passes_strict w users0 ext evs :
+  forallb url_ok evs = true ->
   ok_run_strict w (state0 users0 ext) evs (run w (state0 users0 ext) evs) = true.
-Proof. apply run_ok_strict_from. apply reach_init. Qed.
+Proof. intros H. apply run_ok_strict_from; [apply reach_init|exact H]. Qed.
+
+(* ------------------------------------------------------------------ *)
+(* M. arbitrary /streams/ URLs: two derivations, one resource            *)
+
+(* served HTTP resource (stream, kind) => permit on that stream's canonical path, for every URL *)
+Theorem url_served_requires_permit w s u t h kind p n :
+  reachable w s -> url_ok (EUrl u t h) = true ->
+  o_code (snd (step w s (EUrl u t h))) = 200 ->
+  url_handler false true u = HServe kind p n ->
+  exists v r, token_identity s t = Some v /\ rights_now (users s) v = Some r /\
+              permits r PULL (canonical_path p) = true.
+Proof.
+  intros Hr Hu Hc Hh. pose proof (url_derivations_agree _ _ _ _ Hh) as Ha.
+  assert (Hg : granted (EUrl u t h) (snd (step w s (EUrl u t h))) = true) by (cbn [granted]; rewrite Hc; reflexivity).
+  destruct (served_requires_permit_always w s (EUrl u t h) Hr eq_refl eq_refl Hu Hg eq_refl) as (v & r & Hi & Hn & Hp).
+  exists v, r. cbn [identity target snd] in *. rewrite Ha in Hp. auto.
+Qed.
+
+(* how URLs are read *)
+Example url_reading :
+  extract true (bs "/streams/a/b/7.ts") = (bs "/a/b/7", bs ".ts") /\
+  url_icp true (bs "/streams/a/b/7.ts") = bs "/a/b" /\
+  url_handler false true (bs "/streams/a/b/7.ts") = HServe 2 (bs "/a/b") 7 /\
+  url_handler false true (bs "/streams/a/b/+07.ts") = HServe 2 (bs "/a/b") 7 /\
+  url_handler false true (bs "/streams/a/b/7.TS") = HNone /\
+  url_handler false true (bs "/streams/a/b/7.ts.ts") = HBad /\
+  url_handler false true (bs "/streams/a/b/.ts") = HBad /\
+  url_handler false true (bs "/streams/A/b.flv") = HServe 0 (bs "/a/b") 0 /\
+  url_handler false true (bs "/streams/a/b.flv/") = HNone /\
+  url_handler false true (bs "/streams/a/b/...m3u8") = HServe 1 (bs "/a") 0.
+Proof. vm_compute. repeat split; reflexivity. Qed.
+
+(* dispatching on the lower-cased extension while the interceptor compares it case-sensitively: the segment of /a/b
+   is served on a decision about /a/b/3; viewer (pull /a/b/+, nothing on /a/b) gets it *)
+Definition s5 : state :=
+  fst (step w2 (state0 [mk "viewer" "pv" false "" "/a/b/+"] [bs "/a/b"]) (ELogin (bs "viewer") (bs "pv"))).
+Definition u_TS : bytes := bs "/streams/a/b/3.TS".
+Definition p_ab : bytes := bs "/a/b".
+Definition p_ab3 : bytes := bs "/a/b/3".
+Definition u_ts_lower : bytes := bs "/streams/a/b/3.ts".
+
+Theorem url_ext_case_refuted :
+  url_handler true true u_TS = HServe 2 p_ab 3 /\ url_icp true u_TS = p_ab3 /\
+  o_code (snd (step_url_gen true true w2 s5 u_TS (TA 0) [])) = 200 /\
+  judge w2 s5 (EUrl u_TS (TA 0) []) (snd (step_url_gen true true w2 s5 u_TS (TA 0) [])) &&
+  judge_src w2 s5 (EUrl u_TS (TA 0) []) (snd (step_url_gen true true w2 s5 u_TS (TA 0) [])) = false /\
+  o_code (snd (step w2 s5 (EUrl u_TS (TA 0) []))) = 404 /\
+  o_code (snd (step w2 s5 (EUrl u_ts_lower (TA 0) []))) = 403.
+Proof. vm_compute. repeat split; reflexivity. Qed.
